@@ -24,6 +24,7 @@
 // -DOSMIUM_VERIF_INPUT_BUFFER_SIZE), otherwise "bad-ibs".
 #include "common.hpp"
 
+#include <chrono>
 #include <osmium/io/any_compression.hpp>
 #include <osmium/io/compression.hpp>
 #include <osmium/io/detail/queue_util.hpp>
@@ -126,6 +127,11 @@ static std::unique_ptr<osmium::io::Decompressor> make(const osmium::io::file_com
     return factory.create_decompressor(comp, src.fd);   // takes ownership of the fd
 }
 
+static int op_timeout_s() {
+    const char* e = ::getenv("C09_OP_TIMEOUT");
+    return e ? std::atoi(e) : 20;
+}
+
 static std::string op_rd(const osmium::io::file_compression comp, const std::string& mode, const std::string& path) {
     Source src;
     std::string status = "ok";
@@ -143,10 +149,17 @@ static std::string op_rd(const osmium::io::file_compression comp, const std::str
         d->set_offset_ptr(&off);
         phase = "read";
         // ReadThreadManager::run_in_thread
+        const auto t0 = std::chrono::steady_clock::now();
         while (true) {
             std::string data{d->read()};
             offs.add(off.load());
             if (osmium::io::detail::at_end_of_data(data)) {
+                break;
+            }
+            // watchdog: "decompressed completely" includes "the read loop ends" — a wrapper that
+            // keeps delivering data (e.g. re-reads one stream for ever, seed C09-3) is cut here
+            if (std::chrono::steady_clock::now() - t0 > std::chrono::seconds(op_timeout_s()) || total > (std::size_t{1} << 32)) {
+                status = "hang:read-loop-does-not-end";
                 break;
             }
             lens.add(data.size());
@@ -184,10 +197,15 @@ static std::string op_rtm(const osmium::io::file_compression comp, const std::st
         osmium::io::detail::ReadThreadManager rtm{*d, queue};
         osmium::io::detail::queue_wrapper<std::string> input{queue};
         try {
+            const auto t0 = std::chrono::steady_clock::now();
             while (!input.has_reached_end_of_data()) {
                 const std::string data{input.pop()};
                 if (data.empty()) {
                     continue;
+                }
+                if (std::chrono::steady_clock::now() - t0 > std::chrono::seconds(op_timeout_s()) || total > (std::size_t{1} << 32)) {
+                    status = "hang:read-loop-does-not-end";
+                    break;
                 }
                 lens.add(data.size());
                 total += data.size();
